@@ -1111,6 +1111,66 @@ fn nesting(which: u64, sc: &Scene, plain: (f64, f64), ctx: &mut Ctx) {
 }
 
 // ---------------------------------------------------------------------------------------------
+// fly-by: one end travels on a straight line that starts and ends beyond the maximum distance and passes close to the other end;
+// positions are interpolated frame by frame, so the frames near the closest approach are audible - the attenuation follows the
+// distance of every frame, not the distance at the ends of a buffer
+
+fn flyby_case(ctx: &mut Ctx) {
+	const FIXED: V3 = [0.0, 0.0, -3.0];
+	for which in 0..2usize {
+		for curve in [Some(Easing::Linear), Some(Easing::InPowi(2)), Some(Easing::OutPowi(2))] {
+			for range in [(1.0f32, 10.0f32), (0.0, 20.0)] {
+				for (a, b) in [([-50.0, 0.0, 0.0], [50.0, 0.0, 0.0]), ([40.0, 0.0, -3.0], [-40.0, 0.0, -3.0]), ([0.0, -30.0, 0.0], [0.0, 90.0, 0.0])] {
+					for frames in [0u64, 4, 8, 12] {
+						ctx.evals += 1;
+						ctx.traces += 1;
+						let sp = Sp { range, curve, s: 0.0 };
+						let (sc, epos, lpos) = if which == 0 { (Scene { lpos: FIXED, lq: QID, epos: a, sp }, b, FIXED) } else { (Scene { lpos: a, lq: QID, epos: FIXED, sp }, FIXED, b) };
+						let t = TweenScene { sc, epos, lpos, lq: QID, s: 0.0, frames };
+						let what = format!("fly-by: {} travels from {:?} to {:?} over {} frames (linear, issued after the first callback; 0 = at once) past the {} at {:?}; distances {:?}, curve {}, strength 0, internal buffer {}", if which == 0 { "the emitter" } else { "the listener" }, a, b, frames, if which == 0 { "listener" } else { "emitter" }, FIXED, range, curve_name(curve), IBS);
+						let out = match run_tween(which, &t) {
+							Ok(o) => o,
+							Err(p) => {
+								ctx.fail(format!("panic: {} :: fly-by", p), what);
+								continue;
+							}
+						};
+						// the position in force at frame j after the command was read: a + (b - a) * u(j)
+						let n = IBS as f64;
+						let u = |j: usize| -> f64 {
+							let (c, i) = (j / IBS, (j % IBS) as f64);
+							let at = |k: f64| if frames == 0 { if k > 0.0 { 1.0 } else { 0.0 } } else { (k * n / frames as f64).min(1.0) };
+							let (p0, p1) = (at(c as f64), at(c as f64 + 1.0));
+							p0 + (p1 - p0) * i / n
+						};
+						let mut audible = 0;
+						for j in 0..out.len() - IBS {
+							let pos = add(a, scale(sub(b, a), u(j)));
+							let d = len(sub(pos, FIXED));
+							let want = att_ref(range, curve, d);
+							let slack = att_slack(range, curve, d, 1e-4) + 2e-5;
+							let got = out[IBS + j];
+							audible += (want > 1e-3) as usize;
+							if (got.0 as f64 - IN.0 as f64 * want).abs() > slack || (got.1 as f64 - IN.1 as f64 * want).abs() > slack {
+								ctx.fail(
+									format!("the attenuation does not follow the distance frame by frame while one end flies past the other :: fly-by of {}", if which == 0 { "the emitter" } else { "the listener" }),
+									format!("{} -> frame {} after the command: distance {:.4}, expected level ({:e}, {:e}), got {:?}; all frames {:?}", what, j, d, IN.0 as f64 * want, IN.1 as f64 * want, got, out),
+								);
+								break;
+							}
+						}
+						if audible > 0 {
+							ctx.nontrivial_extra += 1;
+						}
+						ctx.state(hash64(&(which, frames, audible)));
+					}
+				}
+			}
+		}
+	}
+}
+
+// ---------------------------------------------------------------------------------------------
 // part E: tweens of emitter position, listener position / orientation and strength
 
 const TWEENS: [&str; 5] = ["emitter position", "listener position", "listener orientation", "listener position and orientation", "spatialization strength"];
@@ -1639,7 +1699,7 @@ impl Check for C15 {
 			Case::Nesting(n) => format!("nesting: {} x emitter lattice x 9 track settings x 3 orientations", NESTINGS[n as usize]),
 			Case::Tween(t) => format!("tween of {} x start/target lattice x 9 track settings x durations x rigid motions", TWEENS[t]),
 			Case::E2Adoption(n) => format!("E2 interleavings: game(add_listener; add_spatial_sub_track{}; play) || audio(3 callbacks), scheduling points = resource-controller steps, free switches between operations: the track is audible in the first callback that processes its sound", if n { " on a plain parent track" } else { "" }),
-			Case::Joint => "listener and emitter translated together by two tweens of the same duration x 5 emitters x orientations x 3 shifts x durations x 9 track settings x device callback patterns (multiples and non-multiples of the internal buffer): the level never moves".into(),
+			Case::Joint => "listener and emitter translated together by two tweens of the same duration x 5 emitters x orientations x 3 shifts x durations x 9 track settings x device callback patterns (multiples and non-multiples of the internal buffer): the level never moves; fly-by: one end crosses the audible sphere on a line that starts and ends beyond the maximum distance (at once / over 1-3 buffers): the attenuation of every frame is that of its own distance".into(),
 			Case::EarPositions => "emitter exactly at / a hair next to an ear position (listener +- 0.1 along its right axis) x listener positions x orientations x strengths x curves: finite, ear gains in [1 - s, 1], the emitter's side not quieter".into(),
 		}
 	}
@@ -1684,7 +1744,10 @@ impl Check for C15 {
 			Case::Nesting(n) => nesting_case(tier, n, ctx),
 			Case::Tween(t) => tween_case(tier, t, ctx),
 			Case::EarPositions => ear_positions_case(tier, ctx),
-			Case::Joint => joint_case(tier, ctx),
+			Case::Joint => {
+				joint_case(tier, ctx);
+				flyby_case(ctx);
+			}
 			Case::E2Adoption(n) => e2_adoption(tier, n, ctx),
 		});
 		if let Err(p) = r {
